@@ -8,14 +8,32 @@ import ProphyModel.Generated.ProphycSizes
 namespace Prophy.C15
 open Prophy Prophy.Topo
 
-/-- FULL STATEMENT: for every acyclic definition set (`rank` decreasing along dependencies on
-    defined names) in EVERY input order, the sort succeeds, and its output is a permutation of the
-    input in which every definition comes after everything it depends on -/
+/-- FULL STATEMENT: for every acyclic definition set (`rank` decreasing along the dependencies of the
+    definitions - the non-Include nodes - on defined names) in EVERY input order, with Include nodes
+    anywhere in the list (nothing is asked of them: they may carry the name of a definition), the
+    sort succeeds, and its output is a permutation of the input in which every node comes after
+    every definition it depends on -/
 theorem C15_sort_dag (g : List TNode) (rank : String → Nat)
-    (hr : ∀ n ∈ g, ∀ d ∈ n.deps, d ∈ g.map (·.name) → rank d < rank n.name) :
-    ∃ r, sort g = some r ∧ r.Perm g ∧ Ordered (g.map (·.name)) builtins r := by
+    (hr : ∀ n ∈ g, n.incl = false → ∀ d ∈ n.deps, d ∈ availableOf g → rank d < rank n.name) :
+    ∃ r, sort g = some r ∧ r.Perm g ∧ Ordered (availableOf g) builtins r := by
   obtain ⟨r, h⟩ := Topo.sort_complete' g rank hr
   exact ⟨r, h, C15_sort_permutation g r h, C15_sort_ordered g r h⟩
+
+/-- the same in the form a user reads: every definition of the output stands behind a definition of
+    each name it depends on (builtins and names not defined in the input aside) -/
+theorem C15_sort_dag_definitions (g : List TNode) (rank : String → Nat)
+    (hr : ∀ n ∈ g, n.incl = false → ∀ d ∈ n.deps, d ∈ availableOf g → rank d < rank n.name) :
+    ∃ r, sort g = some r ∧ r.Perm g ∧
+      ∀ (pre post : List TNode) (n : TNode), r = pre ++ n :: post → n.incl = false →
+        ∀ d ∈ n.deps, (∃ m ∈ g, m.incl = false ∧ m.name = d) → d ∉ builtins →
+          ∃ m ∈ pre, m.incl = false ∧ m.name = d := by
+  obtain ⟨r, h⟩ := Topo.sort_complete' g rank hr
+  exact ⟨r, h, C15_sort_permutation g r h, fun pre post n hrr hn d hd hdef hb =>
+    C15_sort_ordered_definitions g r h pre post n hrr hn d hd hdef hb⟩
+
+/-- the node lists made from declarations give their Include nodes no dependencies -/
+theorem C15_toNodes_incl_deps (ds : List Decl) : ∀ n ∈ toNodes ds, n.incl = true → n.deps = [] :=
+  Topo.toNodes_incl_deps ds
 
 
 /-- T1 obligation: the names the sorter takes as already defined are exactly the keys of `BUILTIN_SIZES` as extracted from
@@ -23,6 +41,13 @@ theorem C15_sort_dag (g : List TNode) (rank : String → Nat)
 theorem C15_builtins_are_source : Topo.builtins = Generated.builtinSizes.map (·.1) := by decide
 
 /-- non-vacuity: a reverse chain (the maximal number of rotations at the first position) -/
-example : (sort [⟨"D", ["C"]⟩, ⟨"C", ["B"]⟩, ⟨"B", ["A"]⟩, ⟨"A", []⟩]).map (·.map (·.name)) = some ["A", "B", "C", "D"] := by decide
+example : (sort [⟨"D", ["C"], false⟩, ⟨"C", ["B"], false⟩, ⟨"B", ["A"], false⟩, ⟨"A", [], false⟩]).map (·.map (·.name)) = some ["A", "B", "C", "D"] := by decide
+
+/-- non-vacuity with Include nodes between the definitions -/
+example : (sort [⟨"D", ["C"], false⟩, ⟨"x", [], true⟩, ⟨"C", ["B"], false⟩, ⟨"B", ["A"], false⟩, ⟨"y", [], true⟩, ⟨"A", [], false⟩]).map
+    (·.map (·.name)) = some ["A", "B", "C", "D", "x", "y"] := by decide
 
 end Prophy.C15
+
+#print axioms Prophy.C15.C15_sort_dag
+#print axioms Prophy.C15.C15_sort_dag_definitions
